@@ -74,36 +74,41 @@ def textForm (it : Item) : Bytes :=
         | some s => s
         | none => it.fmtV
 
+/-- the text assigned to `c.str` by the arms after the `Cell` arm ("After this point, MUST set .str") -/
+def Item.switchText (it : Item) : Bytes :=
+  match it.kind with
+  | .str s => s
+  | .rune r => encodeRune r
+  | _ =>
+    match it.mString with
+    | some s => s
+    | none => match it.mGoString with
+      | some s => s
+      | none => match it.mError with
+        | some s => s
+        | none => it.fmtV
+
+/-- height / width computed by `Update` once the text is known (the part after the type switch) -/
+def sizeHeight (it : Item) (str : Bytes) : Int :=
+  match it.mHeight with
+  | some h => h
+  | none => if str == [] then 0
+            else (1 + countLF str : Nat) - (if hasSuffixLF str then 1 else 0)
+
+def sizeWidth (dw : Measure) (it : Item) (str : Bytes) : Int :=
+  match it.mWidth with
+  | some w => w
+  | none => if str == [] then 0 else (longestLine dw str : Nat)
+
 /-- `(*Cell).Update`, arm by arm. -/
 def Cell.update (dw : Measure) (it : Item) (c : Cell) : Cell :=
   match it.kind with
   | .nil => { c with empty := true, str := [], width := 0, height := 0 }
   | .cell s w h e => { c with str := s, width := w, height := h, empty := e || s == [] }
-  | k =>
-    let str : Bytes :=
-      match k with
-      | .str s => s
-      | .rune r => encodeRune r
-      | _ =>
-        match it.mString with
-        | some s => s
-        | none => match it.mGoString with
-          | some s => s
-          | none => match it.mError with
-            | some s => s
-            | none => it.fmtV
-    let overrideOnly := str == []
+  | _ =>
+    let str := it.switchText
     -- when the text is empty width/height are reset to 0 and only overrides apply
-    let h : Int :=
-      match it.mHeight with
-      | some h => h
-      | none => if overrideOnly then 0
-                else (1 + countLF str : Nat) - (if hasSuffixLF str then 1 else 0)
-    let w : Int :=
-      match it.mWidth with
-      | some w => w
-      | none => if overrideOnly then 0 else (longestLine dw str : Nat)
-    { c with str := str, empty := overrideOnly, width := w, height := h }
+    { c with str := str, empty := str == [], width := sizeWidth dw it str, height := sizeHeight it str }
 
 def newCell (dw : Measure) (itemId : Nat) (it : Item) : Cell :=
   Cell.update dw it { item := itemId }
